@@ -12,6 +12,7 @@ import (
 	"context"
 	"encoding/json"
 	"fmt"
+	"runtime"
 	"sort"
 	"strconv"
 	"strings"
@@ -280,6 +281,9 @@ func (w *world) exec(op string) string {
 			names, _ := hx.KV(ws, "names")
 			return dump(w.dir, splitList(types), splitList(names))
 		case "stress":
+			if big := hx.KVInt(ws, "big"); big > 0 {
+				return stressWide(big, hx.KVInt(ws, "swaps"))
+			}
 			return stress(hx.KVInt(ws, "n"))
 		case "start":
 			return w.startMember(ws)
@@ -630,6 +634,7 @@ type memStore struct {
 	opened     chan struct{}
 	openedOnce sync.Once
 	leased     map[string]bool // keys written by the provider itself (all under its lease)
+	failPut    bool            // the store refuses the provider's Put calls (mode=regfail)
 }
 
 type sysWrite struct {
@@ -645,6 +650,13 @@ type watchSess struct {
 }
 
 func (s *watchSess) close() { s.once.Do(func() { close(s.ch) }) }
+
+// send hands a response to the watch; a watch the provider has cancelled meanwhile (its channel is
+// closed) takes nothing
+func (s *watchSess) send(r clientv3.WatchResponse) {
+	defer func() { _ = recover() }()
+	s.ch <- r
+}
 
 // apply performs one write (lock held by the caller)
 func (s *memStore) apply(w sysWrite) {
@@ -679,7 +691,7 @@ func (s *memStore) deliver() {
 	if s.sess != nil {
 		evs := s.sess.pending
 		s.sess.pending = nil
-		s.sess.ch <- clientv3.WatchResponse{Header: pb.ResponseHeader{Revision: s.rev}, Events: evs}
+		s.sess.send(clientv3.WatchResponse{Header: pb.ResponseHeader{Revision: s.rev}, Events: evs})
 	}
 	s.mu.Unlock()
 }
@@ -688,7 +700,7 @@ func (s *memStore) deliver() {
 func (s *memStore) fail() {
 	s.mu.Lock()
 	if s.sess != nil {
-		s.sess.ch <- clientv3.WatchResponse{CompactRevision: 1}
+		s.sess.send(clientv3.WatchResponse{CompactRevision: 1})
 		s.sess.close()
 		s.sess = nil
 	}
@@ -725,6 +737,9 @@ func (k storeKV) Get(ctx context.Context, key string, opts ...clientv3.OpOption)
 }
 func (k storeKV) Put(ctx context.Context, key, val string, opts ...clientv3.OpOption) (*clientv3.PutResponse, error) {
 	<-k.s.opened
+	if k.s.failPut {
+		return nil, fmt.Errorf("etcdserver: request refused")
+	}
 	k.s.mu.Lock()
 	k.s.leased[key] = true
 	k.s.apply(sysWrite{put: true, key: key, val: []byte(val)})
@@ -780,17 +795,18 @@ func parseSysWrite(f []string) (sysWrite, bool) {
 // sysRun: the real StartMember / StartClient against memStore, then a script of writes by other
 // nodes (W~..), writes that fall between the listing and the creation of the watch (G~..),
 // deliveries of everything pending as one response (V), watch failures (F), own state changes (S~st),
-// keep-alive answers (K).
+// keep-alive answers (K).  mode=regfail: StartMember against a store that refuses the provider's Put
+// (registerService fails after startWatching(): the error is returned, the watcher lives on).
 // Observed: number of client.Watch calls, number of publications, the last published member list.
 func (w *world) sysRun(ws []string) string {
 	if w.rc == nil {
 		return "noinit"
 	}
 	mode, _ := hx.KV(ws, "mode")
-	if mode != "member" && mode != "client" {
+	if mode != "member" && mode != "client" && mode != "regfail" {
 		return "bad-op"
 	}
-	st := &memStore{kv: map[string][]byte{}, opened: make(chan struct{}), leased: map[string]bool{}}
+	st := &memStore{kv: map[string][]byte{}, opened: make(chan struct{}), leased: map[string]bool{}, failPut: mode == "regfail"}
 	type step struct {
 		kind  string
 		w     sysWrite
@@ -856,12 +872,22 @@ func (w *world) sysRun(ws []string) string {
 		lease := &memLease{st: st}
 		p := etcd.VerifNewWithClient(&clientv3.Client{KV: storeKV{s: st}, Lease: lease, Watcher: storeWatcher{s: st}})
 		var err error
-		if mode == "member" {
-			err = p.StartMember(c)
-		} else {
+		if mode == "client" {
 			err = p.StartClient(c)
+		} else {
+			err = p.StartMember(c)
 		}
 		synctest.Wait()
+		// mode=regfail: StartMember must report the refused registration; the watcher it started before lives on
+		pre := ""
+		if mode == "regfail" {
+			if err != nil {
+				pre = "regerr "
+			} else {
+				pre = "regok "
+			}
+			err = nil
+		}
 		if err != nil {
 			obs = "err"
 		} else {
@@ -883,7 +909,7 @@ func (w *world) sysRun(ws []string) string {
 			st.mu.Lock()
 			watches := st.watches
 			st.mu.Unlock()
-			obs = fmt.Sprintf("watches=%d pubs=%d final=%s", watches, len(c.pubs), strings.TrimPrefix(showPub(c.last), "pub="))
+			obs = pre + fmt.Sprintf("watches=%d pubs=%d final=%s", watches, len(c.pubs), strings.TrimPrefix(showPub(c.last), "pub="))
 		}
 		p.Shutdown(true)
 		lease.closeAll()
@@ -971,6 +997,156 @@ func stress(n int) string {
 		} else {
 			shared.UpdateClusterTopology(a)
 		}
+	}
+	stop.Store(true)
+	wg.Wait()
+	for _, x := range results {
+		if x != "" {
+			return x
+		}
+	}
+	return "ok"
+}
+
+// stressWide is the same smoke run with views of very different SIZE: a view with `big`
+// working services on one node alternates with a one-service view, so that a query that walks
+// the directory takes long enough for a publication to land inside it (the tiny views of
+// `stress` leave a window of nanoseconds).  The updater publishes through the real
+// UpdateClusterTopology; it swaps big -> small while a reader is known to be inside a query
+// (reader progress counters, a different delay on every swap) and small -> big while the
+// readers are spinning on the small view.  Every answer is reduced to an order-independent
+// fingerprint (length, number of empty names, sum of FNV hashes) and must be the fingerprint
+// of one of the two completely built views; a panic inside a query (e.g. an index computed
+// on one view and used on the other) is reported as well.
+func stressWide(big, swaps int) string {
+	svcs := make([]string, big)
+	for i := range svcs {
+		svcs[i] = "gate.g" + strconv.Itoa(i)
+	}
+	a := []*cluster.Member{{Id: "c@n1", Host: "h1", Port: 7001, State: 1, Services: svcs}}
+	b := []*cluster.Member{{Id: "c@n2", Host: "h2", Port: 7002, State: 1, Services: []string{"gate.x1"}}}
+	hash := func(parts ...string) uint64 {
+		var x uint64 = 14695981039346656037
+		for _, p := range parts {
+			for i := 0; i < len(p); i++ {
+				x = (x ^ uint64(p[i])) * 1099511628211
+			}
+			x = (x ^ 0xff) * 1099511628211
+		}
+		return x
+	}
+	fpList := func(l *app.ServiceList) string {
+		if l == nil {
+			return "nil"
+		}
+		var sum uint64
+		for _, it := range l.Items {
+			if it == nil {
+				sum += 1
+				continue
+			}
+			addr := "-"
+			if it.PID != nil {
+				addr = it.PID.Address + "/" + it.PID.Id
+			}
+			sum += hash(it.Name, it.ClusterNodeID, strconv.Itoa(it.State), addr)
+		}
+		return fmt.Sprintf("len=%d sum=%x", len(l.Items), sum)
+	}
+	getService := func(n string) func(c *app.Cluster) string {
+		return func(c *app.Cluster) string {
+			if it := c.GetService(n); it != nil {
+				return showItem(it)
+			}
+			return "none"
+		}
+	}
+	names := []string{"GetServiceList", "GetWorkServiceList", "GetWorkServiceNames", "GetService", "GetService", "GetMembers"}
+	queries := []func(c *app.Cluster) string{
+		func(c *app.Cluster) string { return fpList(c.GetServiceList("gate")) },
+		func(c *app.Cluster) string { return fpList(c.GetWorkServiceList("gate")) },
+		func(c *app.Cluster) string {
+			xs := c.GetWorkServiceNames()
+			var sum uint64
+			empty := 0
+			for _, x := range xs {
+				if x == "" {
+					empty++
+				}
+				sum += hash(x)
+			}
+			return fmt.Sprintf("len=%d empty=%d sum=%x", len(xs), empty, sum)
+		},
+		getService("g"+strconv.Itoa(big-1)),
+		getService("x1"),
+		func(c *app.Cluster) string {
+			var ids []string
+			for id, m := range c.GetMembers() {
+				ids = append(ids, id+":"+strconv.Itoa(len(m.Services)))
+			}
+			sort.Strings(ids)
+			return strings.Join(ids, ",")
+		},
+	}
+	ca, cb := app.NewCluster(), app.NewCluster()
+	ca.UpdateClusterTopology(a)
+	cb.UpdateClusterTopology(b)
+	wantA, wantB := make([]string, len(queries)), make([]string, len(queries))
+	for i, q := range queries {
+		wantA[i], wantB[i] = q(ca), q(cb)
+	}
+	shared := app.NewCluster()
+	shared.UpdateClusterTopology(b)
+	const readers = 4
+	var stop atomic.Bool
+	var wg sync.WaitGroup
+	results := make([]string, readers)
+	var progress [readers]atomic.Int64
+	var failed atomic.Bool
+	for r := 0; r < readers; r++ {
+		wg.Add(1)
+		go func(r int) {
+			defer wg.Done()
+			k := 0
+			defer func() {
+				if e := recover(); e != nil {
+					results[r] = "panic:" + names[k]
+					failed.Store(true)
+				}
+			}()
+			for i := 0; !stop.Load(); i++ {
+				// every second query of a reader is the directory walk (the longest query)
+				if i%2 == 0 {
+					k = 2
+				} else {
+					k = (i/2 + r) % len(queries)
+				}
+				progress[r].Add(1)
+				if got := queries[k](shared); got != wantA[k] && got != wantB[k] {
+					results[r] = fmt.Sprintf("mixed:%s[%s]", names[k], strings.ReplaceAll(got, " ", ","))
+					failed.Store(true)
+					return
+				}
+			}
+		}(r)
+	}
+	waitProgress := func(r int, d int64) {
+		p0 := progress[r].Load()
+		deadline := time.Now().Add(2 * time.Second)
+		for progress[r].Load() < p0+d && !failed.Load() && time.Now().Before(deadline) {
+			runtime.Gosched()
+		}
+	}
+	for i := 0; i < swaps && !failed.Load(); i++ {
+		shared.UpdateClusterTopology(a)
+		// a reader has started a query on the big view; land the small view inside it
+		r := i % readers
+		waitProgress(r, 2)
+		for spin := 0; spin < (i%7)*(big/8+1); spin++ {
+			runtime.Gosched()
+		}
+		shared.UpdateClusterTopology(b)
+		waitProgress(r, 50)
 	}
 	stop.Store(true)
 	wg.Wait()
@@ -1146,9 +1322,13 @@ func (g *gen) listing(nn int) string {
 func (g *gen) sysOp(nn int) string {
 	r := g.h.R
 	mode := "member"
-	if r.Intn(6) == 0 {
+	switch r.Intn(12) {
+	case 0, 1:
 		mode = "client"
 		g.h.Count("sys:client")
+	case 2:
+		mode = "regfail"
+		g.h.Count("sys:registration-refused")
 	}
 	op := "sys mode=" + mode
 	for i := 0; i < nn; i++ {
@@ -1517,7 +1697,7 @@ func (g *gen) sysExhaustive(maxLen int) {
 			for _, store := range []string{"", " " + n1} {
 				modes := []string{"member"}
 				if len(steps) <= 2 {
-					modes = append(modes, "client")
+					modes = append(modes, "client", "regfail")
 				}
 				for _, mode := range modes {
 					op := "sys mode=" + mode + store + " | " + strings.Join(steps, " ") + " V"
@@ -1570,6 +1750,9 @@ func TestRun(t *testing.T) {
 	h.Emit(rs, w.exec(rs))
 	op := fmt.Sprintf("stress n=%d", hx.EnvInt("VERIF_STRESS", 3000))
 	h.Count("stress")
+	h.Emit(op, w.exec(op))
+	op = fmt.Sprintf("stress big=%d swaps=%d", hx.EnvInt("VERIF_STRESSBIG", 20000), hx.EnvInt("VERIF_STRESSSWAPS", 16))
+	h.Count("stress-wide")
 	h.Emit(op, w.exec(op))
 }
 
